@@ -108,7 +108,7 @@ pub fn clvm_oracle(prog: &Sx, env: &Sx, flags: ConsensusFlags, tree_limit: usize
                     json!({"ok": true, "cost": bignat_u64(cost), "big": true})
                 } else {
                     let out = Sx::from_node(&a, res);
-                    json!({"ok": true, "cost": bignat_u64(cost), "big": false, "res": out.to_json()})
+                    json!({"ok": true, "cost": bignat_u64(cost), "big": false, "res": out.to_jsonf()})
                 }
             }
             Err(e) => json!({"ok": false, "err": format!("{e:?}")}),
@@ -195,8 +195,8 @@ fn trusted_json(prog: &[u8], refs: &[Vec<u8>], flags: ConsensusFlags, consts: &C
                     let ps = Sx::from_node(&a, pz);
                     let ss = Sx::from_node(&a, sol);
                     v.push(json!({"coin": coin_json(c), "found": true, "ph": jbytes(&tree_hash_sx(&ps)),
-                        "puzzle": if sx_size(&ps) < tree_limit { ps.to_json() } else { json!({"a": []}) },
-                        "solution": if sx_size(&ss) < tree_limit { ss.to_json() } else { json!({"a": []}) },
+                        "puzzle": if sx_size(&ps) < tree_limit { ps.to_jsonf() } else { json!({"a": []}) },
+                        "solution": if sx_size(&ss) < tree_limit { ss.to_jsonf() } else { json!({"a": []}) },
                         "small": sx_size(&ps) < tree_limit && sx_size(&ss) < tree_limit}));
                 }
                 Err(_) => v.push(json!({"coin": coin_json(c), "found": false})),
@@ -246,7 +246,7 @@ pub fn gen_event(inp: &GenInput, consts: &Consts, with_trusted: bool) -> Value {
     };
     let small_prog = sx_size(&tree) <= TREE_LIMIT;
     if small_prog {
-        ev["prog"] = tree.to_json();
+        ev["prog"] = tree.to_jsonf();
     }
     // generator arguments (built independently of setup_generator_args)
     let simple = flags.contains(ConsensusFlags::SIMPLE_GENERATOR);
